@@ -17,6 +17,9 @@ forms: (round 3) the weight arrays come in float64 / float32 / int64 / int32 and
        scalars / Python floats / Python ints / 0-d arrays / integer arrays.  Every case is admitted only if the sum of
        absolute values of all terms stays below 2^52 in units of the last place, so that no floating-point operation
        of a correct implementation can round.
+alias: (round 4) what the integrand hands back: a third integrand per object is a coordinate x_d[c] (mostly of the last domain)
+       that returns its own argument / a view of it / a read-only broadcast view; the other integrands also return a reused output
+       buffer or a non-writable array.  After the calls the component grids must still hold their data.  Same in the histories.
 hist:  (round 3) histories on ONE MultiDomainGrid object: integrate (any route), then re-weight a component grid
        (setter, in-place slice assignment, *=), move its points, or replace md.grid_list[j], then observe again;
        compared with run_history of the model (theorem history_routes_agree) and with the oracle on the current grids.
@@ -32,7 +35,7 @@ import json
 
 import numpy as np
 
-from vlib.core import SRC, Ctx, src_sha
+from vlib.core import SRC, VERIF, Ctx, src_sha
 
 CHUNK_FIXED = [1, 2, 3, 7]
 MAXREP = 3  # failures reported per kind (smallest inputs first)
@@ -130,12 +133,21 @@ def domains_of(spec):
 
 def make_callable(poly, dims, rform="np"):
     """Python integrand from the monomial data; works point-wise and vectorised over the last argument.
-    rform: how the value is handed back (numpy scalar/array as computed, Python float, Python int / integer array, 0-d array)."""
+    rform: how the value is handed back (numpy scalar/array as computed, Python float, Python int / integer array, 0-d array;
+    "alias": a coordinate integrand x_d[c] hands back its argument itself / a view of it / a read-only broadcast view, nothing is computed;
+    "buffer": the same preallocated output array is filled and returned by every call; "readonly": a non-writable array)."""
+    bufs = {}
+    coordinate = len(poly) == 1 and poly[0][0] == 1 and len(poly[0][1]) == 1 and poly[0][1][0][2] == 1
 
     def comp(a, d, c):
         return a if dims[d] == 1 else a[..., c]
 
     def f(*args):
+        if rform == "alias" and coordinate:
+            d, c, _ = poly[0][1][0]
+            v = comp(args[d], d, c)
+            shape = np.shape(comp(args[-1], len(args) - 1, 0))
+            return np.broadcast_to(v, shape) if shape != np.shape(v) else v
         tot = 0.0 * comp(args[-1], len(args) - 1, 0)  # carries the shape of the vectorised argument
         for coef, facs in poly:
             term = float(coef)
@@ -150,9 +162,38 @@ def make_callable(poly, dims, rform="np"):
             if rform == "0d":
                 return np.asarray(tot)
             return tot
+        if rform == "buffer":
+            buf = bufs.setdefault(tot.shape, np.empty(tot.shape))
+            np.copyto(buf, tot)
+            return buf
+        if rform == "readonly":
+            tot = np.array(tot)
+            tot.flags.writeable = False
+            return tot
         return tot.astype(np.int64) if rform == "int" else tot
 
     return f
+
+
+RFORMS = ["np", "np", "py", "int", "0d", "buffer", "readonly"]
+
+
+def rand_coordinate(rng, dims):
+    """The integrand x_d[c] (first moment along one coordinate), mostly of the last domain."""
+    d = len(dims) - 1 if rng.random() < 0.7 else rng.randrange(len(dims))
+    return [(1, [(d, rng.randrange(dims[d]), 1)])]
+
+
+def grids_intact(md, doms_spec, shared_positions=None):
+    """Do the component grids still hold the data they were built from?  Returns None or a description."""
+    objs = md.grid_list
+    specs_ = doms_spec if len(objs) == len(doms_spec) else doms_spec[:1]
+    for j, (g, gs) in enumerate(zip(objs, specs_)):
+        if not np.array_equal(np.asarray(g.points, dtype=float), np.asarray(points_array(gs, gs["pts"]), dtype=float)):
+            return f"points of grid_list[{j}] are now {np.asarray(g.points).tolist()}"
+        if not np.array_equal(np.asarray(g.weights, dtype=float), np.asarray(weights_array(gs, gs["wts"]), dtype=float)):
+            return f"weights of grid_list[{j}] are now {np.asarray(g.weights).tolist()}"
+    return None
 
 
 # ====================================================================== the property's own oracle (Python ints)
@@ -568,7 +609,7 @@ def rand_mutation(rng, state):
             wts = [rng.choice([-5, -3, -1, 1, 3, 5, 7, 9]) for _ in range(n)]
         else:
             wts = [rng.choice([-3, -2, -1, 1, 2, 4, 5]) for _ in range(n)]
-        if wts == gs["wts"]:
+        if wts == gs["wts"] and form != "imul":  # (*= 2 on all-zero weights changes nothing, on either side)
             wts[0] += 2
         return {"op": "setw", "j": j, "wts": wts, "form": form}
     if r < 0.8:
@@ -700,13 +741,20 @@ def run(ctx: Ctx):
         chunk_list = sorted({c for c in CHUNK_FIXED + [total - 1, total, total + 1, total + 5 + ctx.rng.randint(0, 9)] if c >= 1})
         if spec["big"]:
             chunk_list = [7, 1000, total - 1]
-        for pi, poly in enumerate((poly_a, poly_s)):
+        poly_c = rand_coordinate(ctx.rng, dims)
+        md_main = md
+        for pi, poly in enumerate((poly_a, poly_s, poly_c)):
             pname = f"p{i}_{pi}"
+            md = md_main
+            if pi == 2:  # coordinate integrand handing back its own argument: on a fresh object, vectorised route first
+                st, md = observe(lambda: build_md(spec))
+                if st == "exc":
+                    break
             defs.append(f"Definition {pname} : list (@monomial Z) := {coq_poly(poly)}.")
             if abs_bound(doms, poly) >= 2 ** 52:  # a correct implementation might round: not an exact case
                 ctx.count("skipped_not_exact")
                 continue
-            rform = ctx.rng.choice(["np", "np", "py", "int", "0d"])
+            rform = "alias" if pi == 2 else ctx.rng.choice(RFORMS)
             ctx.count(f"integrand_returns={rform}")
             f = make_callable(poly, dims, rform)
             exp = oracle_integral(doms, poly)  # in units of 2^-G
@@ -715,8 +763,10 @@ def run(ctx: Ctx):
                       ("nonvec-default-chunk", None, lambda: md.integrate(f, non_vectorized=True))]
             for c in chunk_list:
                 routes.append(("nonvec", c, (lambda c=c: md.integrate(f, non_vectorized=True, integration_chunk_size=c))))
-            if spec["big"] and pi == 1:
+            if spec["big"] and pi >= 1:
                 routes = routes[:3]
+            if pi == 2:
+                routes = [routes[1], routes[0]] + routes[2:6]
             for route, c, fn in routes:
                 st, v = observe(fn)
                 iv = as_int(v, G) if st == "ok" else None
@@ -735,6 +785,12 @@ def run(ctx: Ctx):
                 if iv != exp:
                     report(total, "corr_" + ("vec_eq_nested" if route in ("vec", "default") else "nonvec_chunk_independent"), k, float(iv),
                            f"integrate ({route}, chunk={c}) = {iv}/2^{G}, the nested sum over the product set is {exp}/2^{G}", rp, tag=("integrate", k))
+            # the calls must leave the component grids as they were (otherwise every later integral is off)
+            damage = grids_intact(md, doms)
+            if damage:
+                report(total, "corr_history_routes_agree", f"intact:{key0}:{json.dumps(poly, separators=(',', ':'))}:{rform}", damage[:200],
+                       f"after integrate(...) with an integrand returning {rform!r} values, the component grids no longer hold their data: {damage[:200]}",
+                       {"spec": spec, "poly": poly, "rform": rform, "routes_called": [r[0] for r in routes]})
             # separable: product of the single-grid integrals computed by the implementation's own Grid.integrate
             if pi == 1:
                 prod_impl, prod_int = 1, 1
@@ -751,6 +807,7 @@ def run(ctx: Ctx):
                     report(total, "corr_separable_product", f"separable:{key0}:{json.dumps(facs)}", str(v)[:80],
                            f"separable integrand: multi-domain integral {str(v)[:80]}, product of the single-grid integrals {prod_impl}/2^{G} (exact {prod_int}/2^{G})",
                            {"spec": spec, "factors(a,b,comp,exp)": facs, "poly": poly, "expected": prod_int})
+        md = md_main
         if i < 3:
             ctx.sample({"spec": json.loads(key0), "poly": poly_a, "chunks": chunk_list, "nested_sum": oracle_integral(doms, poly_a)})
 
@@ -768,7 +825,7 @@ def run(ctx: Ctx):
             continue  # reported above
         state = hist_state(spec)
         dims = [g["dim"] for g in hist_domains(state)]
-        polys = [rand_poly(ctx.rng, dims), rand_poly(ctx.rng, dims)]
+        polys = [rand_poly(ctx.rng, dims), rand_poly(ctx.rng, dims), rand_coordinate(ctx.rng, dims)]
         for pi, poly in enumerate(polys):
             defs.append(f"Definition hp{i}_{pi} : list (@monomial Z) := {coq_poly(poly)}.")
         coq_ops, done = [], []
@@ -810,12 +867,12 @@ def run(ctx: Ctx):
                            tag=("history", hk))
                 continue
             # integrate on the object as it is now
-            pi = ctx.rng.randrange(2)
+            pi = ctx.rng.choice([0, 0, 1, 1, 2])
             if abs_bound(doms, polys[pi]) >= 2 ** 52:
                 ctx.count("skipped_not_exact")
                 continue
             route = first_route if t == 0 else ctx.rng.choice(["default", "vec", "vec", "nonvec", "nonvec"])
-            op = {"op": "int", "poly": polys[pi], "route": route, "rform": ctx.rng.choice(["np", "np", "py", "int", "0d"])}
+            op = {"op": "int", "poly": polys[pi], "route": route, "rform": "alias" if pi == 2 else ctx.rng.choice(RFORMS)}
             if route == "nonvec":
                 op["chunk"] = ctx.rng.choice([1, 2, 3, 7, max(total - 1, 1), total + 1, None])
             st, v = observe(lambda: hist_observe(md, op, dims))
@@ -910,13 +967,51 @@ def run(ctx: Ctx):
                        f"model and implementation disagree on .{kind} although the implementation matches the oracle", {"spec": m["spec"]}, found=False)
 
     # ---------------------------------------------------------------- report (smallest inputs first, capped per kind)
-    per = {}
+    known_keys = set()
+    try:
+        for line in (VERIF / "known_findings.jsonl").read_text().splitlines():
+            line = line.strip()
+            if line and not line.startswith("#"):
+                rec = json.loads(line)
+                if rec.get("property") == ctx.pid and rec.get("status") == "known":
+                    known_keys.add(rec.get("key"))
+    except OSError:
+        pass
+
+    def fail_class(ob, key, rp):
+        """Configuration class of a failure: a first failure is kept for every class, so that one class (or a listed
+        known finding) cannot use up the slots of another."""
+        sp = rp.get("spec") or {}
+        grids = sp.get("grids") or []
+        mode = "repeat" if sp.get("nd") is not None else "copies" if sp.get("share") else "list"
+        short = {"int64": "int", "int32": "int", "float32": "f32"}
+        forms = ",".join(sorted({short[g["wdt"]] for g in grids if g.get("wdt") in short})) + ("/frac" if any(g.get("ws", 0) for g in grids) else "")
+        hist = rp.get("history")
+        what = ""
+        if hist:  # last state change (if any) and the failing observation
+            muts = [o for o in hist if o["op"] in ("setw", "setp", "replace")]
+            ints = [o for o in hist[:-1] if o["op"] == "int" and o.get("rform") in ("alias", "buffer", "readonly")]
+            last = hist[-1]
+            what = (muts[-1]["op"] if muts else "") + "|" + (ints[-1]["rform"] if ints else "") + "|" + last["op"]
+        rf = rp.get("rform") if rp.get("rform") in ("alias", "buffer", "readonly") else "plain"
+        special = "int/f32" if forms.split("/")[0] else ""  # a non-double weight array is involved
+        return (ob, key.split(":")[0], "repeat" if mode == "repeat" else "list", rp.get("route"), rf, special, what)
+
+    per, percls = {}, {}
     for size, ob, key, obs, text, rp, found in sorted(pending, key=lambda t: (t[0], len(t[2]))):
-        per[ob] = per.get(ob, 0) + 1
-        if per[ob] <= MAXREP:
+        if key in known_keys:
             ctx.fail(ob, key, obs, text, rp, found_input=found)
+            continue
+        cls = fail_class(ob, key, rp)
+        percls[cls] = percls.get(cls, 0) + 1
+        if percls[cls] > 1:  # beyond the first failure of a class: a few more per kind
+            if per.get(ob, 0) >= MAXREP:
+                continue
+            per[ob] = per.get(ob, 0) + 1
+        ctx.fail(ob, key, obs, text, rp, found_input=found)
     if pending:
-        ctx.notes.append(f"{len(pending)} disagreements in total; at most {MAXREP} reported per kind: " + json.dumps(per))
+        ctx.notes.append(f"{len(pending)} disagreements in total; reported: the first failure of every configuration class ({len(percls)} classes) plus at most {MAXREP} more per kind "
+                         f"(listed known findings are reported separately and do not count): " + json.dumps(per))
 
     ctx.cov["rule"] = ("random integer grids (points in [-3,3]^d, d in {1,2,3} mixed; weights in {-2..3} incl. 0 and negatives), 1..4(5) domains, "
                        "list mode / repeated-grid mode / same object listed k times; two integrands per object sent as monomial data to both sides "
@@ -928,6 +1023,8 @@ def run(ctx: Ctx):
                        "(model on the numerators, comparison after scaling by the power of two), one 31-bit-weight grid next to single-precision/integer grids, "
                        "integrand returning numpy scalar / Python float / Python int / 0-d array / integer array; a case is used only if the sum of absolute values "
                        "of all terms is below 2^52 units in the last place (no rounding possible in a correct implementation). "
+                       "What the integrand returns: additionally its own last argument or a view of it (coordinate integrands), a read-only broadcast view, "
+                       "one reused output buffer, a non-writable array; the component grids are compared with their data after the calls. "
                        "Histories: on one object, integrate / re-weight a component grid (setter, slice assignment, *=) / move its points / replace grid_list[j] / "
                        "read size, points, weights, compared with run_history of the model and with the oracle on the current grids; failing histories are shrunk")
     ctx.cov["objects"] = len(specs)
